@@ -43,10 +43,14 @@ func ensureChild() *child {
 const callTimeout = 60 * time.Second
 
 type execT struct {
-	c   *child
-	acc *acceptor
-	n   int
+	c    *child
+	acc  *acceptor
+	n    int
+	nrep int // replies of this connection so far
 }
+
+// measured for the evidence: `late` lines executed, reply slices read again by them, request buffers by spare capacity
+var lateLines, lateRereads, lateChanged int
 
 // rawOuts: arrival-order outputs of the case being executed, by line index (read by the monitor, which
 // hxlib calls right after the case).
@@ -87,13 +91,29 @@ func (e *execT) Do(line string) string {
 		return "bad-op"
 	}
 	switch f[0] {
-	case "cfg", "seed", "seedstruct", "m", "end":
+	case "cfg", "seed", "seedstruct", "m", "end", "late":
 		out := e.c.call(line, callTimeout)
 		if e.c.dead {
 			crashes++
 		}
 		// the worker reports arrival order (kept for the monitor); the model comparison is on the sorted batch
 		rawOuts[idx] = out
+		switch f[0] {
+		case "late":
+			lateLines++
+			lateRereads += e.nrep
+			if out != "ok" {
+				lateChanged++
+			}
+		case "m", "end":
+			if out != "-" {
+				e.nrep += len(strings.Fields(out))
+			}
+		case "seed", "seedstruct":
+			if sp := strings.Fields(out); len(sp) > 1 && sp[1] != "-" {
+				e.nrep += len(sp) - 1
+			}
+		}
 		switch {
 		case strings.HasPrefix(out, "CRASH"), strings.HasPrefix(out, "WEDGE"), strings.HasPrefix(out, "HANG"), out == "no-connection", out == "bad-op", out == "cfg-mismatch":
 			return out
@@ -156,6 +176,8 @@ func traceStep(a *acceptor, f []string) string {
 		ok = a.down()
 	case len(f) == 4 && f[1] == "seed", len(f) == 3 && f[1] == "note":
 		ok = len(a.configs) > 0
+	case len(f) == 4 && f[1] == "late":
+		ok = false // a reply is a value: a trace in which one reads differently later is never accepted
 	default:
 		return "bad-op"
 	}
@@ -190,6 +212,9 @@ func traceLines(res *concResult) []string {
 		case "down":
 			ls = append(ls, "t down")
 		}
+	}
+	for _, d := range res.Late {
+		ls = append(ls, fmt.Sprintf("t late %d %s", d.N, d.Now))
 	}
 	return ls
 }
@@ -284,7 +309,9 @@ func main() {
 				return "corr:" + strings.Fields(line)[0]
 			},
 			Extra: func(r *hxlib.Run) map[string]any {
-				return map[string]any{"worker_crashes": crashes, "worker_restarts": restarts}
+				return map[string]any{"worker_crashes": crashes, "worker_restarts": restarts,
+					"late_lines": lateLines, "reply_slices_read_again_by_late_lines": lateRereads, "late_lines_reporting_a_changed_reply": lateChanged,
+					"purity_tie": "the Lean model is pure (requests and replies are values; theorem sent_replies_are_final): its answer to every `late` line is the constant ok. The implementation side of `late` re-reads, through the very slices its send function was given (kept, never copied), every reply of the connection and compares it with the copy taken at the moment of the send call; requests are handed to Handle as windows into larger buffers (see input_distribution reqbuf-spare:*). Concurrent scenarios do the same at their end (`t late` trace lines, rejected by the acceptor)."}
 			},
 		})
 	}()
